@@ -4,7 +4,7 @@ PID=$1; PATCH=$2; TIER=${3:-quick}
 cd /repo || exit 2
 if [ -n "$(git status --porcelain --untracked-files=no)" ]; then echo "repo dirty"; exit 2; fi
 git apply $PATCH || { echo "patch does not apply"; exit 2; }
-cd /verif && VERIF_SCRATCH=${VERIF_SCRATCH:-/tmp/verif_scratch} bin/check $PID --tier $TIER > /verif/work/try_$PID.out 2> /verif/work/try_$PID.err; RC=$?
+cd /verif && VERIF_SCRATCH=${VERIF_SCRATCH:-/tmp/verif_scratch_mut} bin/check $PID --tier $TIER > /verif/work/try_$PID.out 2> /verif/work/try_$PID.err; RC=$?
 git -C /repo checkout -- .
 echo "check=$PID patch=$PATCH exit=$RC violations=$(grep -c '^VIOLATION' /verif/work/try_$PID.out)"
 grep '^VIOLATION' /verif/work/try_$PID.out | head -3
